@@ -1,9 +1,10 @@
 import JL.Lemmas.Monad
+import JL.Lemmas.C15
 /-!
 # C15 — `merge` flattens exactly one level; `in` is substring / deep-membership test
 -/
 namespace JL.Props.C15
-open JL Json ArrOp
+open JL Json ArrOp JL.Spec
 
 /-- what one operand contributes to a merge -/
 def pieces : Json → List Json
@@ -43,5 +44,154 @@ theorem in_other (n h : Json) (h1 : h ≠ .null) (h2 : ∀ xs, h ≠ .arr xs) (h
   cases h <;> simp_all [in_]
 
 example : merge [.arr [.arr [.arr [.null]]]] = [.arr [.arr [.null]]] := by rfl
+
+/-- order is preserved: the `i`-th operand's pieces come before the `j`-th operand's for `i < j` (concatenation in order) -/
+theorem merge_cons (x : Json) (rest : List Json) : merge (x :: rest) = pieces x ++ merge rest := by
+  rw [merge_spec, merge_spec]; rfl
+
+theorem op_in (a b : Json) (rest : List Json) :
+    execEager "in".toList (a :: b :: rest) = (match in_ a b with | some r => pure (.bool r) | none => M.err) := by
+  simp [execEager]
+  rfl
+
+/-! ## `in` on strings: substring containment, in characters -/
+
+/-- `isInfix` is containment as a contiguous run of characters -/
+theorem isInfix_spec (n h : Str) : isInfix n h = true ↔ ∃ pre suf, h = pre ++ n ++ suf :=
+  JL.Lemmas.C15.isInfix_iff n h
+
+theorem in_str_spec (n h : Str) : in_ (.str n) (.str h) = some true ↔ ∃ pre suf, h = pre ++ n ++ suf := by
+  rw [in_str, Option.some.injEq, isInfix_spec]
+
+/-- the empty needle is in every string -/
+theorem in_str_empty (h : Str) : in_ (.str []) (.str h) = some true :=
+  (in_str_spec [] h).mpr ⟨[], h, rfl⟩
+
+example : in_ (.str "é€".toList) (.str "aé€𝄞".toList) = some true := by decide +kernel
+example : in_ (.str "€é".toList) (.str "aé€𝄞".toList) = some false := by decide +kernel
+
+/-! ## `in` on arrays: membership up to `Spec.SpecEq` (deep equality, numbers by value, key order irrelevant) -/
+
+/-- `number_eq` is equality of the denoted numbers, whatever the variant (`PosInt`, `NegInt`, `Float`) and spelling.
+`Num.WF`: a `u64`, a negative `i64`, or a finite double — what `serde_json` can hold. -/
+theorem number_eq_spec (a b : Num) (wa : a.WF) (wb : b.WF) : numberEq a b = true ↔ numValue a = numValue b :=
+  JL.Lemmas.C15.number_eq_spec a b wa wb
+
+/-- `deep_eq` decides the specification on well-formed values (`Json.wf`: numbers as above, object keys strictly sorted —
+what a `BTreeMap` delivers) -/
+theorem deep_eq_spec (a b : Json) (wa : a.wf = true) (wb : b.wf = true) : deepEq a b = true ↔ specEq a b :=
+  JL.Lemmas.C15.deep_eq_spec a b wa wb
+
+/-- the specification, case by case -/
+theorem specEq_num (a b : Num) : specEq (.num a) (.num b) ↔ numValue a = numValue b := JL.Lemmas.C15.specEq_num_iff a b
+theorem specEq_arr (xs ys : List Json) : specEq (.arr xs) (.arr ys) ↔
+    xs.length = ys.length ∧ ∀ (i : Nat) (h₁ : i < xs.length) (h₂ : i < ys.length), specEq xs[i] ys[i] :=
+  JL.Lemmas.C15.specEq_arr_iff xs ys
+theorem specEq_obj (x y : List (Str × Json)) : specEq (.obj x) (.obj y) ↔
+    (∀ k, (∃ a, (k, a) ∈ x) ↔ (∃ b, (k, b) ∈ y)) ∧ (∀ k a b, (k, a) ∈ x → (k, b) ∈ y → specEq a b) :=
+  JL.Lemmas.C15.specEq_obj_iff x y
+/-- on well-formed objects: position by position on the sorted association lists -/
+theorem specEq_obj_sorted (x y : List (Str × Json)) (wx : (Json.obj x).wf = true) (wy : (Json.obj y).wf = true) :
+    specEq (.obj x) (.obj y) ↔ JL.Lemmas.C15.Pointwise SpecEq x y := JL.Lemmas.C15.specEq_obj_sorted x y wx wy
+theorem specEq_str (s t : Str) : specEq (.str s) (.str t) ↔ s = t := JL.Lemmas.C15.specEq_str_iff s t
+theorem specEq_bool (s t : Bool) : specEq (.bool s) (.bool t) ↔ s = t := JL.Lemmas.C15.specEq_bool_iff s t
+/-- values of different JSON types are never equal (`1` is not `"1"`, `0` is not `false`, `[]` is not `""`) -/
+theorem specEq_same_type {a b : Json} (h : specEq a b) : JL.Lemmas.C15.kind a = JL.Lemmas.C15.kind b :=
+  JL.Lemmas.C15.specEq_kind h
+
+/-- the specification is an equivalence relation on well-formed values -/
+theorem specEq_refl (a : Json) (wa : a.wf = true) : specEq a a := JL.Lemmas.C15.specEq_refl a wa
+theorem specEq_symm {a b : Json} (h : specEq a b) : specEq b a := JL.Lemmas.C15.specEq_symm h
+theorem specEq_trans {a b c : Json} (h1 : specEq a b) (h2 : specEq b c) : specEq a c := JL.Lemmas.C15.specEq_trans h1 h2
+
+/-- `deep_eq` is reflexive on well-formed values … -/
+theorem deepEq_refl (a : Json) (wa : a.wf = true) : deepEq a a = true :=
+  (deep_eq_spec a a wa wa).mpr (specEq_refl a wa)
+
+/-- … symmetric … -/
+theorem deepEq_symm (a b : Json) (wa : a.wf = true) (wb : b.wf = true) : deepEq a b = deepEq b a := by
+  have h : deepEq a b = true ↔ deepEq b a = true := by
+    rw [deep_eq_spec a b wa wb, deep_eq_spec b a wb wa]
+    exact ⟨specEq_symm, specEq_symm⟩
+  cases h1 : deepEq a b <;> cases h2 : deepEq b a <;> simp_all
+
+/-- … and transitive -/
+theorem deepEq_trans (a b c : Json) (wa : a.wf = true) (wb : b.wf = true) (wc : c.wf = true)
+    (h1 : deepEq a b = true) (h2 : deepEq b c = true) : deepEq a c = true :=
+  (deep_eq_spec a c wa wc).mpr (specEq_trans ((deep_eq_spec a b wa wb).mp h1) ((deep_eq_spec b c wb wc).mp h2))
+
+/-- deep membership: the needle is in the array iff some element equals it in the sense of the specification -/
+theorem in_arr_spec (n : Json) (hay : List Json) (wn : n.wf = true) (wh : (Json.arr hay).wf = true) :
+    in_ n (.arr hay) = some true ↔ ∃ p ∈ hay, specEq p n := by
+  have wl : wfList hay = true := wh
+  rw [in_arr, Option.some.injEq, List.any_eq_true]
+  constructor
+  · rintro ⟨p, hp, h⟩
+    exact ⟨p, hp, (deep_eq_spec p n (JL.Lemmas.C15.wf_of_mem hay wl p hp) wn).mp h⟩
+  · rintro ⟨p, hp, h⟩
+    exact ⟨p, hp, (deep_eq_spec p n (JL.Lemmas.C15.wf_of_mem hay wl p hp) wn).mpr h⟩
+
+theorem in_arr_spec_false (n : Json) (hay : List Json) (wn : n.wf = true) (wh : (Json.arr hay).wf = true) :
+    in_ n (.arr hay) = some false ↔ ¬ ∃ p ∈ hay, specEq p n := by
+  rw [← in_arr_spec n hay wn wh, in_arr]
+  cases hay.any (fun p => deepEq p n) <;> simp
+
+/-- a well-formed element is found in its own array -/
+theorem in_arr_self (n : Json) (hay : List Json) (wh : (Json.arr hay).wf = true) (hn : n ∈ hay) :
+    in_ n (.arr hay) = some true := by
+  have wn := JL.Lemmas.C15.wf_of_mem hay wh n hn
+  exact (in_arr_spec n hay wn wh).mpr ⟨n, hn, specEq_refl n wn⟩
+
+/-! ## non-vacuity: number spellings, key order, nesting -/
+
+/-- `1` (PosInt) and `1.0` (Float) -/
+example : numberEq (.pos 1) (.flt (.fin false F64.S)) = true := by decide +kernel
+example : numValue (.pos 1) = numValue (.flt (.fin false F64.S)) := by decide +kernel
+example : (Num.pos 1).WF ∧ (Num.flt (.fin false F64.S)).WF := by decide +kernel
+/-- `0` and `-0.0` -/
+example : numberEq (.pos 0) (.flt (.fin true 0)) = true := by decide +kernel
+example : (Num.flt (.fin true 0)).WF := by decide +kernel
+/-- `2^53` and `2^53 + 1` are distinct numbers although they are the same double -/
+example : numberEq (.pos (2^53)) (.pos (2^53 + 1)) = false := by decide +kernel
+example : F64.eq (Num.pos (2^53)).toF64 (Num.pos (2^53 + 1)).toF64 = true := by decide +kernel
+/-- `-9223372036854775808` (NegInt) and `-9223372036854775808.0` -/
+example : numberEq (.neg (2^63)) (.flt (.fin true (2^63 * F64.S))) = true := by decide +kernel
+/-- `1.5` is no integer; `1e30` (float) equals itself and nothing a `u64` can hold -/
+example : numberEq (.flt (.fin false (F64.S + F64.S / 2))) (.pos 1) = false := by decide +kernel
+example : numberEq (.flt ArrOp.F1e30) (.flt ArrOp.F1e30) = true := by decide +kernel
+example : numberEq (.flt ArrOp.F1e30) (.pos (2^64 - 1)) = false := by decide +kernel
+example : (Num.flt ArrOp.F1e30).WF := by decide +kernel
+/-- `2.0 in [1,2,3]`, `{"a":[1.0]} in [{"a":[1]}]`, `"1" in [1]` is false -/
+example : in_ (.num (.flt (.fin false (2 * F64.S)))) (.arr [.num (.pos 1), .num (.pos 2), .num (.pos 3)]) = some true := by
+  simp only [in_, List.any, deepEq]
+  decide +kernel
+example : in_ (.obj [("a".toList, .arr [.num (.flt (.fin false F64.S))])]) (.arr [.obj [("a".toList, .arr [.num (.pos 1)])]])
+    = some true := by
+  simp only [in_, List.any, deepEq, deepEqKvs, lookupEq, deepEqList, if_true]
+  decide +kernel
+/-- key order: `{"b":1,"a":2}` and `{"a":2,"b":1}` are the same `BTreeMap`, hence the same model value; the specification
+itself does not look at the order (an unsorted association list is `specEq` to its sorted form) -/
+example : specEq (.obj [("b".toList, .num (.pos 1)), ("a".toList, .num (.flt (.fin false (2 * F64.S))))])
+    (.obj [("a".toList, .num (.pos 2)), ("b".toList, .num (.flt (.fin false F64.S)))]) := by
+  refine .obj (fun k => ?_) (fun k a b ha hb => ?_)
+  · simp only [List.mem_cons, Prod.mk.injEq, List.not_mem_nil, or_false]
+    constructor
+    · rintro ⟨a, ⟨rfl, rfl⟩ | ⟨rfl, rfl⟩⟩
+      · exact ⟨_, Or.inr ⟨rfl, rfl⟩⟩
+      · exact ⟨_, Or.inl ⟨rfl, rfl⟩⟩
+    · rintro ⟨a, ⟨rfl, rfl⟩ | ⟨rfl, rfl⟩⟩
+      · exact ⟨_, Or.inr ⟨rfl, rfl⟩⟩
+      · exact ⟨_, Or.inl ⟨rfl, rfl⟩⟩
+  · simp only [List.mem_cons, Prod.mk.injEq, List.not_mem_nil, or_false] at ha hb
+    rcases ha with ⟨rfl, rfl⟩ | ⟨rfl, rfl⟩ <;> rcases hb with ⟨h, rfl⟩ | ⟨h, rfl⟩
+    · exact absurd h (by decide)
+    · exact .num (by decide +kernel)
+    · exact .num (by decide +kernel)
+    · exact absurd h (by decide)
+example : in_ (.str "1".toList) (.arr [.num (.pos 1)]) = some false := by
+  simp only [in_, List.any, deepEq, Bool.or_false]
+example : (Json.arr [.obj [("a".toList, .arr [.num (.flt (.fin false F64.S))]), ("b".toList, .null)]]).wf = true := by
+  decide +kernel
+example : in_ (.num (.pos 1)) (.obj []) = none := by decide +kernel
 
 end JL.Props.C15
